@@ -804,13 +804,30 @@ fn search(n: usize, seed: u64) {
     for prog in MARK_SENSITIVE {
         for rank in 1..=3usize {
             for down in [false, true] {
-                for _ in 0..(n / 4 + 2) {
-                    let shape: Vec<usize> = (0..rank).map(|i| if i == 0 { 2 + r.below(3) } else { 1 + r.below(3) }).collect();
+                for it in 0..(n / 4 + 2).max(10) {
+                    // inner axes of length >= 2 mostly (a single column is monotone whenever the rows are)
+                    let shape: Vec<usize> = (0..rank).map(|i| if i == 0 { 2 + r.below(3) } else if it % 4 == 3 { 1 + r.below(3) } else { 2 + r.below(2) }).collect();
                     let cnt: usize = shape.iter().product();
                     let rc = shape[0];
                     let rl = cnt / rc;
-                    let mut rows: Vec<Vec<f64>> =
-                        (0..rc).map(|_| (0..rl).map(|_| if r.chance(1, 6) { r.below(4) as f64 + 0.5 } else { r.below(6) as f64 }).collect()).collect();
+                    // two samples in three hold small integers only (so that the byte variants exist),
+                    // with a small leading column so that ties are broken by later columns
+                    let ints = it % 3 != 2;
+                    let mut rows: Vec<Vec<f64>> = (0..rc)
+                        .map(|_| {
+                            (0..rl)
+                                .map(|c| {
+                                    if !ints && r.chance(1, 4) {
+                                        r.below(4) as f64 + 0.5
+                                    } else if c == 0 {
+                                        r.below(3) as f64
+                                    } else {
+                                        r.below(6) as f64
+                                    }
+                                })
+                                .collect()
+                        })
+                        .collect();
                     rows.sort_by(|a, b| a.partial_cmp(b).unwrap());
                     if down {
                         rows.reverse();
